@@ -717,4 +717,52 @@ theorem claimReconcile_cases (c : ClaimState) (nodes : List NodeRef) (cache : Bo
   unfold claimReconcile
   cases c.managed <;> cases c.deleting <;> simp
 
+/-! ## Volume attachments in transitional states
+
+The code reads nothing of a VolumeAttachment but its persistent volume name (regenerated fact `Finalize.vaFilterReads`):
+an attachment that carries a deletionTimestamp (held by the external-attacher's finalizer while the detach is going on)
+or whose `status.attached` is false blocks exactly like any other. -/
+
+/-- rewrite the deletion mark and the attached status of an attachment (everything the code does not read) -/
+def VA.remark (g : VA → Bool × Bool) (v : VA) : VA := { v with terminating := (g v).1, unattached := (g v).2 }
+
+theorem any_onNode_remark (g : VA → Bool × Bool) (vas : List VA) :
+    (vas.map (VA.remark g)).any (·.onNode) = vas.any (·.onNode) := by
+  induction vas with
+  | nil => rfl
+  | cons v vs ih => simp only [List.map_cons, List.any_cons, ih, VA.remark]
+
+theorem pendingVAs_remark (g : VA → Bool × Bool) (now : Int) (ft : Fault) (pods : List Pod) (vas : List VA) :
+    pendingVAs now ft pods (vas.map (VA.remark g)) = (pendingVAs now ft pods vas).map (VA.remark g) := by
+  unfold pendingVAs
+  simp only [List.filter_map]
+  rfl
+
+theorem stageVolumes_remark (g : VA → Bool × Bool) (now : Int) (hc : Bool) (term : Option Int) (pods : List Pod) (vas : List VA)
+    (f : NodeFaults) (c : Conds) :
+    stageVolumes now hc term pods (vas.map (VA.remark g)) f c = stageVolumes now hc term pods vas f c := by
+  unfold stageVolumes volReadFault pvcLookedUp
+  rw [any_onNode_remark, pendingVAs_remark]
+  simp only [List.isEmpty_map]
+
+theorem runStages_remark (g : VA → Bool × Bool) (stages : List Stage) (now : Int) (hc : Bool) (term : Option Int) (pods : List Pod)
+    (vas : List VA) (f : NodeFaults) (d : ProvOut) (c : Conds) :
+    runStages stages now hc term pods (vas.map (VA.remark g)) f d c = runStages stages now hc term pods vas f d c := by
+  induction stages generalizing c with
+  | nil => rfl
+  | cons s rest ih =>
+    have hs : runStage s now hc term pods (vas.map (VA.remark g)) f d c = runStage s now hc term pods vas f d c := by
+      cases s <;> simp only [runStage, stageVolumes_remark]
+    simp only [runStages, hs, ih]
+
+/-- an attachment of the node for a persistent volume that no undrainable pod mounts is pending, whatever its state -/
+theorem mem_pendingVAs (now : Int) (ft : Fault) (pods : List Pod) (vas : List VA) (v : VA) (k : Nat)
+    (hv : v ∈ vas) (hon : v.onNode = true) (hk : v.pv = some k) (hns : (shieldedPVs now .ok pods).contains k = false) :
+    v ∈ pendingVAs now ft pods vas := by
+  unfold pendingVAs
+  simp only [List.mem_filter, hv, hon, hk, true_and, and_true]
+  by_cases hf : ft = .ok
+  · rw [hf, hns]; rfl
+  · simp [shieldedPVs, hf]
+
 end Karp.Term
